@@ -55,7 +55,7 @@ def supported (c : Cfg) : Bool :=
     `filters = 0`, `middle_block = True`, `max_stride = 8·stem_patch_stride` for the wrappers, which
     ignore those fields) -/
 def inGrid (c : Cfg) : Bool :=
-  c.inCh == 1 && c.fixMid && c.fixWrap && c.heads.all (fun h => strides6.contains h.os) && strides6.contains c.bos
+  c.inCh == 1 && c.fixMid && c.fixWrap && c.stemKernel == 4 && c.heads.all (fun h => strides6.contains h.os) && strides6.contains c.bos
     && [1, 2, 3].contains c.cpb && rates3.contains c.rate &&
   match c.fam with
   | .unet => c.variant == 0 && [8, 16, 24, 32, 64].contains c.filters && [8, 16, 32].contains c.maxStride
